@@ -5,7 +5,7 @@ import os
 
 HERE = os.path.dirname(os.path.abspath(__file__))
 # checks that are integrated (built, reviewed, run against /repo itself); others are still being built
-ENABLED = ["C01", "C02", "C03", "C04", "C05", "C06", "C07", "C09", "C10", "C11", "C12", "C13", "C16", "C18", "C19", "C20"]
+ENABLED = ["C%02d" % i for i in range(1, 21)]
 CHECKS = {}
 for _p in sorted(glob.glob(os.path.join(HERE, "c[0-9][0-9].py"))):
     _name = os.path.basename(_p)[:-3]
